@@ -1513,8 +1513,10 @@ pub fn twin_program_with(seed: u64, len: usize, rx: usize, w_pub0: u32) -> Vec<S
         }
         out.push(d.gen_call());
     }
-    // let everything settle
-    for _ in 0..12 {
+    // let everything settle: each poll handles one inbound packet, a QoS 2 exchange needs two of
+    // them, and the runs of a pair must both get to the end of every exchange (a run with extra
+    // continuation calls would otherwise be further along than its twin)
+    for _ in 0..(12 + 3 * len) {
         out.push(Step::Poll {});
     }
     out
